@@ -199,6 +199,7 @@ def run(ctx):
     run_ignored_scc(ctx)
     run_width_histories(ctx)
     run_families(ctx)
+    run_constraints_over_ignored(ctx, ctx.budget(24, 400))
     VB.flush()
 
 
@@ -245,7 +246,14 @@ def run_width_histories(ctx):
         if G.number_of_edges() == 0 or G.number_of_edges() > 12:
             continue
         G.graph["id"] = "graph 1"
-        cls = fp.stDiGraph if cyclic else fp.stDAG
+        cls0 = fp.stDiGraph if cyclic else fp.stDAG
+        extra = {}
+        if rng.random() < 0.4:
+            # synthetic edges that the real edges do not imply: additional starts / ends at inner nodes, a node without any edge
+            extra = {"additional_starts": [v for v in G.nodes() if rng.random() < 0.3], "additional_ends": [v for v in G.nodes() if rng.random() < 0.3]}
+        if rng.random() < 0.2:
+            G.add_node("lonely")
+        cls = (lambda g, c=cls0, x=extra: c(g, **x))
         try:
             st = cls(G)
         except ValueError:
@@ -264,16 +272,28 @@ def run_width_histories(ctx):
                 sets_.append([])
         rep = {"edges": [list(e) for e in edges], "cyclic": cyclic, "ignore_sets": [[list(e) for e in s_] for s_ in sets_]}
         ctx.case(["widthhist", rep], nontrivial=True); ctx.count("E4_width_histories", "histories")
-        for j, ig in enumerate(sets_):
+        # query kinds: ignore set + synthetic edges (what the models ask), the bare call, an explicitly empty list, synthetic edges only
+        kinds = [("set", ig) for ig in sets_]
+        for _ in range(rng.randint(1, 3)):
+            kinds.insert(rng.randrange(len(kinds) + 1), (rng.choice(["bare", "empty", "synthetic"]), []))
+        rep["queries"] = [k_ for k_, _ in kinds]
+        for j, (kind, ig) in enumerate(kinds):
             if len(ig) >= len(edges):
                 continue
+
+            def ask(obj):
+                if kind == "bare":
+                    return obj.get_width()
+                if kind == "empty":
+                    return obj.get_width(edges_to_ignore=[])
+                return obj.get_width(edges_to_ignore=list(ig) + list(obj.source_sink_edges))
             got = exp = None
             try:
-                got = st.get_width(edges_to_ignore=list(ig) + list(st.source_sink_edges))
+                got = ask(st)
             except Exception as e:
                 got = f"raise:{type(e).__name__}"
             try:
-                fresh = cls(G); exp = fresh.get_width(edges_to_ignore=list(ig) + list(fresh.source_sink_edges))
+                fresh = cls(G); exp = ask(fresh)
             except Exception as e:
                 exp = f"raise:{type(e).__name__}"
             ctx.count("E4_width_histories", "queries")
@@ -315,3 +335,43 @@ def run_families(ctx):
             ctx.report(f"MinPathCoverCycles returned {len(walks)} walks ({props.covers(G, walks)}); one covering walk exists", rep); continue
         if not km.is_solved():
             ctx.report("kPathCoverCycles(k=1) not solved although the width is 1", rep)
+
+
+def run_constraints_over_ignored(ctx, n):
+    """the minimum also counts the routes the CONSTRAINTS force: b parallel branches (optionally a cycle on one of them for the
+    cyclic class), most edges ignored, one subset/subpath constraint per branch made of (ignored) edges of that branch -- b
+    routes are needed although far fewer elements remain to be covered; edge and node covers"""
+    import flowpaths as fp
+    for i in range(n):
+        rng = ctx.rng("consign", i)
+        cyclic = i % 2 == 0
+        b = rng.randint(2, 4); depth = rng.randint(1, 2)
+        G = nx.DiGraph(); G.graph["id"] = "branches"
+        branches = []
+        for j in range(b):
+            nodes = ["s"] + [f"x{j}_{d}" for d in range(depth)] + ["t"]
+            es = list(zip(nodes, nodes[1:])); G.add_edges_from(es); branches.append(es)
+        if cyclic and rng.random() < 0.6:
+            G.add_edge("x0_0", "x0_0")                      # a self-loop: the class for graphs with cycles
+        es_all = list(G.edges())
+        keep = rng.sample(es_all, rng.randint(1, 2))         # the only elements that still need covering
+        ign = [e for e in es_all if e not in keep]
+        cons = [list(br) for br in branches]
+        rep = {"family": "constraints over ignored elements", "cyclic": cyclic, "edges": [list(e) for e in es_all], "ignored": ign, "constraints": cons}
+        ctx.case(["consign", b, depth, cyclic, keep], nontrivial=True); ctx.count("E2_constraints_over_ignored", "cases")
+        try:
+            if cyclic:
+                m = fp.MinPathCoverCycles(G, elements_to_ignore=ign, subset_constraints=cons, solver_options={"threads": THREADS})
+            else:
+                m = fp.MinPathCover(G, elements_to_ignore=ign, subpath_constraints=cons, solver_options={"threads": THREADS})
+            m.solve()
+        except Exception as e:
+            ctx.report(f"cover model raised {e!r}", rep); continue
+        if not m.is_solved():
+            ctx.report(f"{'MinPathCoverCycles' if cyclic else 'MinPathCover'} is not solved although {b} routes (one per branch) cover the non-ignored "
+                       f"elements and realise every constraint", rep); continue
+        routes = m.get_solution()["walks" if cyclic else "paths"]
+        why = props.constraint_covered(cons, routes, coverage=1.0, as_set=cyclic)
+        if why or len(routes) != b:
+            ctx.report(f"{'MinPathCoverCycles' if cyclic else 'MinPathCover'} returned {len(routes)} routes ({why}); every route realises at most one "
+                       f"of the {b} constraints, so the minimum is {b}", dict(rep, solution=routes))
